@@ -42,6 +42,15 @@ CHECKS = {
    technique="stateless preemption-bounded DFS over Store::read with limit / tail / heartbeat / small channel capacities under a controlled scheduler",
    text="limit n in {1,2} against histories n-1, n, n+1, follow off / on / heartbeat, tail, last-id+context, a second plain follower, and lagging consumers (broadcast capacity 2, delivery capacity 1): all interleavings within the bound; delivered frames must be exactly the first n, the stream must then end (probed by one more matching append), synthetic frames go only to their stream, nothing continues past a skipped frame.",
    note=E2_NOTE),
+
+ "C12": dict(engine="E6-enum+E4-http", cat="model_checking", ref="DESIGN.md §5 C12, §4 E6",
+   technique="bounded exhaustive enumeration of input shapes (token grammars) through the real parsers and the real HTTP boundary, round-trip and rejection oracles",
+   text="Every TTL string of <=3 tokens over a 17-token alphabet through parse_ttl, both spellings and POST /t?ttl=; every ReadOptions value of an 8x2x2x4x3 product and every <=3-pair query string through to_query_string/from_query; every meta text of the alphabet (integer extremes, escapes, surrogates, nesting depth 1..200) through POST /{topic} and frames over topic x hash x ttl x meta through POST /import; after every acceptance the store is re-read on all paths (a reading panic is a violation).",
+   note="Trusted: serde_json, serde_urlencoded, ssri, hyper. Bounded by the token alphabets in coverage.rule; values outside them are not covered."),
+ "C13": dict(engine="E4-http", cat="model_checking", ref="DESIGN.md §5 C13, §4 E4",
+   technique="exhaustive enumeration of request sequences up to length 2 (3 on a core) against the real HTTP server, differential oracle against the Store API on the same store",
+   text="All sequences of length 1-2 over a ~50-request alphabet covering every route valid and with each kind of damage (ids, contexts, TTLs, options, xs-meta incl. non-ASCII header bytes, bodies none/small/70000 chunked, CAS hashes, unknown methods), each on a fresh seeded store behind the real api::serve over the unix socket with a raw HTTP/1.1 client; every response must exist, have the right status class, the right effect on the raw partitions, and NDJSON/SSE bodies must decode to what Store::read returns; GET /version must still work afterwards.",
+   note="Trusted: hyper's HTTP/1 parsing, tokio. Any 2xx counts as success; follow streams are covered by C03/C06/C11 at the Store API."),
 }
 NOT_YET = {}
 ALL = ["C%02d" % i for i in range(1, 21)]
@@ -80,6 +89,10 @@ def main():
             "add_only": True,
         },
         "engines": [
+            {"name": "E4-http", "path": "engine/src/http.rs, engine/src/e4.rs", "serves_properties": ["C13", "C12"],
+             "kind_free_text": "real api::serve on a fresh store per sequence, raw HTTP/1.1 client over the unix socket, exhaustive request sequences"},
+            {"name": "E6-enum", "path": "engine/src/e6.rs", "serves_properties": ["C12"],
+             "kind_free_text": "bounded exhaustive input-grammar enumeration through the real parsers and boundary"},
             {"name": "E2-sched", "path": "engine/src/sched.rs, engine/src/e2.rs", "serves_properties": [p for p in ALL if CHECKS.get(p, {}).get("engine", "").startswith("E2")],
              "kind_free_text": "hand-rolled controlled scheduler over the verif hook points; stateless DFS with iterative preemption bounding over real threads and tokio tasks"},
             {"name": "E1-seq", "path": "engine/src/seq.rs, engine/src/model.rs", "serves_properties": [p for p in ALL if CHECKS.get(p, {}).get("engine", "").startswith("E1")],
